@@ -137,19 +137,23 @@ def extract(g, X):
     # ---- serializer (primitive.rs)
     def name_ser():
         b = X.fn_body(pr, "serialize_name")
-        m = re.search(r"\bmatch\s+(\*?\w+)\s*\{", b)
-        v = m.group(1).lstrip("*")
-        raw, esc = None, False
-        for arm in X.match_arms(b, re.escape(m.group(1))):
-            if re.search(r"\.write_all\(\s*&\[\s*" + v + r"\s*\]\s*\)", arm.expr):
-                if raw is not None:
-                    raise ValueError("two raw arms")
-                raw = set(X.pattern_set(arm.pattern, b, pr))
-                if arm.guard:
-                    raw &= X.byte_set(arm.guard, v, pr, body=b)
-            elif arm.pattern == "_" and re.match(r'write!\(\s*\w+\s*,\s*"#\{:02X\}"\s*,\s*' + v + r"\s*\)", arm.expr):
-                esc = True
-        if not esc or not raw:
+        # the body of `for &b in s.as_bytes() { … }` is RUN for every byte: written as it is (write_all(&[b])) or as #XX
+        fm = re.search(r"\bfor\s+&?(\w+)\s+in\s+\w+\.(?:as_bytes\(\)|bytes\(\))\s*\{", b)
+        v = fm.group(1)
+        loop = X.item_body(b[fm.start():], r"\{", "loop over the bytes of the name")
+        t = X.tabulate(loop, v, pr, scopes=[b], is_expr=False)
+        raw = set()
+        for k, o in t.items():
+            if o.how != "value" or len(o.effects) != 1:
+                raise ValueError("byte %d: %r" % (k, o))
+            e = o.effects[0]
+            if re.fullmatch(r"\w+\.write_all\(\s*&\[\s*" + v + r"\s*\]\s*\)\?;?", e):
+                raw.add(k)
+            else:
+                (c,) = X.fmt_calls(e)
+                if c["template"] != b"#\x00:02X\x01" or c["holes"][0][0] != v:
+                    raise ValueError("escape form changed: %r" % e)
+        if not raw or len(raw) == 256:
             raise ValueError("raw / escape arm changed")
         lo, hi = min(raw), max(raw)
         excl = X.ordered(set(range(lo, hi + 1)) - raw, [40, 41, 60, 62, 91, 93, 123, 125, 47, 37, 35])
